@@ -205,7 +205,45 @@ def run(ctx):
                 if diff:
                     ctx.violation(f'backup-lookalike-{driver}-{mode}.json', dict(argv=[repr(x) for x in argv], exit=r.cls, stderr=r.stderr[-300:], diff=diff[:10]),
                                   f'C03: overwriting D/f with --backup={mode} twice changed a bystander: {diff[0]}')
-    ctx.cov['rule'] = ('alias table (other spelling, own directory, dir/../f, symlink, hard link, directory via symlink, absolute root link, link back into the source, .., special file) x '
+        # ---- (f) an alias the RUN ITSELF creates: one source holds a link `l` to a file `l` of a LATER source with the same base
+        # name; once the link has been recreated in the destination, the later file maps onto it.  The same-file test must
+        # hold at the moment the destination is opened (the walker may be far ahead of the workers: first copy stalled)
+        for driver, workers in (('parfile', 1), ('parblock', 2), ('parfile', 4)):
+            sc = treerun.Scn(); sc.driver = driver; sc.workers = workers
+            sc.d(b'/W').d(b'/W/first').f(b'/W/first/big').d(b'/W/p').d(b'/W/p/A').l(b'/W/p/A/l', b'/W/q/A/l').d(b'/W/q').d(b'/W/q/A').f(b'/W/q/A/l').f(b'/W/q/A/other').d(b'/W/dest')
+            sc.opts = ['r']; sc.paths = [b'first', b'p/A', b'q/A', b'dest']
+            root = base + '/R'
+            subprocess.run(f'rm -rf {root}', shell=True); os.makedirs(root)
+            treerun.materialise(root, sc)
+            before = scen.snapshot(root)
+            argv = treerun.argv(root, sc)
+            r = scen.run_xcp(base + '/aux', argv, cwd=treerun.real(root, sc.cwd), plan=['stallp openat =first/big 400000'], timeout=60)
+            after = scen.snapshot(root)
+            ctx.count('plan.alias-created-by-the-run'); ctx.count(f'exit.{r.cls}'); ctx.case(('alias-created-by-the-run', driver, workers), True)
+            diff = protected_diff(before, after, [b'W/dest'])
+            if diff:
+                ctx.violation(f'run-made-alias-{driver}-{workers}.json', dict(argv=[repr(x) for x in argv], exit=r.cls, stderr=r.stderr[-300:], diff=diff[:10]),
+                              f'C03: a source file was altered through a link the run itself had created in the destination: {diff[0]}')
+        # ---- (g) --ownership with sources owned by somebody else: the SOURCE's owner, group and mode (set-id bits) stay
+        for driver in ('parfile', 'parblock'):
+            sc = treerun.Scn(); sc.driver = driver
+            sc.d(b'/W').d(b'/W/S').f(b'/W/S/a').f(b'/W/S/b').d(b'/W/S/sub').f(b'/W/S/sub/c').d(b'/W/D')
+            sc.opts = ['r']; sc.paths = [b'S', b'D']; sc.extra = ['--ownership']
+            root = base + '/R'
+            subprocess.run(f'rm -rf {root}', shell=True); os.makedirs(root)
+            treerun.materialise(root, sc)
+            os.chown(root + '/W/S/a', 1234, 2345); os.chmod(root + '/W/S/a', 0o6755)
+            os.chown(root + '/W/S/sub/c', 77, 88); os.chmod(root + '/W/S/sub/c', 0o4711)
+            before = scen.snapshot(root)
+            argv = treerun.argv(root, sc)
+            r = scen.run_xcp(base + '/aux', argv, cwd=treerun.real(root, sc.cwd), timeout=30)
+            after = scen.snapshot(root)
+            ctx.count('plan.foreign-owner-with-ownership'); ctx.count(f'exit.{r.cls}'); ctx.case(('foreign-owner', driver), True)
+            diff = protected_diff(before, after, [b'W/D'])
+            if diff:
+                ctx.violation(f'foreign-owner-{driver}.json', dict(argv=[repr(x) for x in argv], exit=r.cls, stderr=r.stderr[-300:], diff=diff[:10]),
+                              f'C03: copying with --ownership changed a SOURCE: {diff[0]}')
+    ctx.cov['rule'] = ('alias created by the run itself (link in one source to a file of a later source, first copy stalled); --ownership with foreign-owned set-id sources; alias table (other spelling, own directory, dir/../f, symlink, hard link, directory via symlink, absolute root link, link back into the source, .., special file) x '
                        'position x driver; then for a valid tree copy: SIGKILL before/after every mutating call and EIO/ENOSPC (thorough: 6 errnos) at every mutating call; each stat-family probe of the aliased scenarios failing once; bystanders named like backups (link, FIFO). '
                        'distinct = distinct (scenario, plan)')
     ctx.assumptions += ['SIGKILL leaves exactly the effects of completed calls', 'atime is not compared']
